@@ -44,6 +44,10 @@ def generate(seed, tier):
     key_count = swarm.randint(1, 3)
     alphabet = ["a", "b", "c"][: swarm.randint(2, 3)]
     fields = [{"name": "k%d" % index, "type": "Choice", "rule": "a,b,c", "width": 1} for index in range(key_count)]
+    if key_count >= 2 and swarm.random() < 0.25:
+        # free-text keys whose values contain the separator a naive concatenation of key values would use
+        fields = [{"name": "k%d" % index, "type": "Text", "length": "1{sep}4", "width": 4} for index in range(key_count)]
+        alphabet = ["a", "a, b", "b, a"]
     fields.append({"name": "n", "type": "Integer", "rule": "0{sep}9", "width": 1})
     checks = []
     kinds = swarm.choice([["IsUnique"], ["DistinctCount"], ["IsUnique", "DistinctCount"], ["IsUnique", "DistinctCount"],
